@@ -42,16 +42,17 @@ def one(mu, base):
     d = os.path.join(base, mu['id'])
     os.makedirs(d)
     copy_repo(d)
-    p = os.path.join(d, mu['file'])
-    s = open(p).read()
-    edits = [(mu['old'], mu['new'])] + list(mu.get('more', []))
-    for old, new in edits:
+    # edits: (old, new) in the mutant's file, or (file, old, new) for a second file
+    edits = [(mu['file'], mu['old'], mu['new'])] + [
+        (mu['file'],) + tuple(e) if len(e) == 2 else tuple(e) for e in mu.get('more', [])]
+    for fname, old, new in edits:
+        p = os.path.join(d, fname)
+        s = open(p).read()
         n = s.count(old)
         if n != 1:
             shutil.rmtree(d, ignore_errors=True)
-            return {'id': mu['id'], 'ok': False, 'why': 'pattern matches %d times in %s' % (n, mu['file'])}
-        s = s.replace(old, new)
-    open(p, 'w').write(s)
+            return {'id': mu['id'], 'ok': False, 'why': 'pattern matches %d times in %s' % (n, fname)}
+        open(p, 'w').write(s.replace(old, new))
     rc, out = run_check(d, mu['prop'], None, base)
     fired = re.findall(r'^  rule (\S+) at (\S+) \[(.*?)\]: ', out, re.M)
     hit = [f for f in fired if f[0] == mu['rule'] and mu['key'] in f[2]]
